@@ -101,6 +101,9 @@ void psAesReadyGCM(psAesGcm_t *ctx,
     const unsigned char *aad, psSize_t aadLen)
 {
     psGhashInit(ctx, ctx->gInit);
+    /* No keystream is left over from a previous message (a tag of fewer
+       than 16 bytes leaves part of E(K, J0) buffered) */
+    ctx->OutputBufferCount = 0;
     /* Save aside first counter for final use */
     Memset(ctx->IV, 0, 16);
     Memcpy(ctx->IV, IV, 12);
